@@ -80,6 +80,11 @@ CHECKS = {
    text="loaded_array_independent_of_hash_order, seeded_samples_independent_of_hash_order (same file, n, A, k and random decisions => same sample list for every iteration order), samples_are_a_function_of_array_and_decisions, unsorted_iteration_is_order_dependent (witness of the repaired defect 9ffd425), loaded_array_is_topological. Tie: every d4/c2d input is loaded by the real code and by the Lean loader model and the node arrays are compared exactly (this pins petgraph neighbour order, DfsPostOrder and the smoothing order); each model loaded 8/20 times in one process (fresh hash keys) must export identical arrays and identical seeded samples; CLI urs -s and stream random s in separate processes.",
    note="Modelled, not verified: the claim that balance_or_children's missing-variable set is the ONLY hash-order-observing iteration in the loader is by reading, and is tied by the exact array comparison (any other order dependence shows as a disagreement between repeated loads or with the model); Pcg32 determinism for a fixed seed is trusted; address layout and thread timing do not enter the model (single-threaded load, no pointer-keyed containers).",
    ref="DESIGN.md §8 C18"),
+ "C13": dict(
+   technique="Lean 4 theorems on a total executable model of handle_stream_msg (every reply is a result or carries a code E2..E6, a rejected line leaves the state unchanged, only enum moves the cursor, ranges inclusive, per-variable answers joined in order, parameter-group order irrelevant) + line-by-line comparison of the real handler with the model over the protocol's token alphabet, with panic capture",
+   text="reply_is_result_or_coded_error, rejected_line_changes_nothing, only_enum_moves_the_cursor, range_is_inclusive, variables_are_answered_one_by_one, parameter_order_is_irrelevant (any permutation of well-delimited parameter groups of distinct kinds is either rejected as well or yields the same parameter record) hold for every line, node array and cursor state: the model is a total function, so in the model every line has a reply. Tie: every line `command t1 t2` over 14 commands x 39 tokens (keywords in both spellings, numbers, ranges, 0, out-of-range / extreme / malformed numbers, huge ranges, a path), random longer lines with 1..3 parameter groups, printable junk, empty lines and the inputs of the eight repaired defects are sent to the real handle_stream_msg on one long-lived instance under catch_unwind; each reply must be a result or E1..E6, a rejected line must leave the node array and feature count unchanged, count/sat answers of the well-formed subset are judged by the truth table, permuted parameter groups must agree, and every reply is compared with the Lean model's (exact text where the text is a literal of stream.rs, code otherwise).",
+   note="The model covers a model loaded from an nnf file (no clause cache); the CNF-loaded handler paths (clause-update / undo-update / save-cnf) are exercised by the C12 check. Not modelled: reply contents of random / t-wise (random source) and save-* side effects (model says 'some result'), texts of library error types (nom, ParseIntError, ParseFloatError, io: compared by code), non-ASCII alphabetic characters (char::is_alphabetic is Unicode; generators emit ASCII), resource use of `random l N` / `t-wise l N` for large N (skipped above 10^4 / 3). 'Never hangs' is established per line by the harness finishing; no liveness theorem.",
+   ref="DESIGN.md §8 C13"),
  "C01": dict(
    technique="Lean 4 theorem (count = number of satisfying assignments for every well-formed node array) + per-input validated loader correspondence",
    text="Theorems count_is_model_count / same_function_same_count hold for every well-formed node array of any size (induction over the array, kernel-checked). The loader is tied per input: the Lean driver evaluates the decidable WF predicate and the truth table on the node array the real loader exported and compares with the truth table of the input text; the real code is compared with an independent oracle.",
